@@ -97,6 +97,10 @@ func (p *Provider) SetStoreConfig(name string, config spi.StoreConfiguration) er
 func (p *Provider) GetStoreConfig(name string) (spi.StoreConfiguration, error) {
 	storeName := strings.ToLower(name)
 
+	// the stores map and a store's configuration are written under this lock (OpenStore, SetStoreConfig)
+	p.lock.RLock()
+	defer p.lock.RUnlock()
+
 	store := p.dbs[storeName]
 	if store == nil {
 		return spi.StoreConfiguration{}, spi.ErrStoreNotFound
